@@ -154,9 +154,50 @@ def burst(ck, tier, seed):
                     replay={"kind": "ws-trace", "trace": keep})
 
 
+def block(ck, tier, seed):
+    """senders blocked on a full queue (strategy block) while the hub closes the connection: WsBlock.tla"""
+    for pump in (False, True):
+        kw = {"Senders": {"s1", "s2"}, "QCap": 1, "MaxMsgs": 2, "PumpRuns": pump, "Deviations": set()}
+        r = vf.tlc("ws", "WsBlock", kw, invariants=["TypeOK", "LockDiscipline", "NoSendOnClosed", "HeldOnlyWhileSending"],
+                   properties=["HubReturns", "SendersReturn"], timeout=600, want_cases=False)
+        ck.expect_model_ok("block-locks" + ("-pump" if pump else ""), r)
+        ck.add_model("block-locks" + ("-pump" if pump else ""), r)
+    r = vf.tlc("ws", "WsBlock", {"Senders": {"s1"}, "QCap": 1, "MaxMsgs": 2, "PumpRuns": False, "Deviations": {"DoneUnderLock"}},
+               properties=["HubReturns"], timeout=600, want_cases=False)
+    if r.ok:
+        raise vf.InfraError("WsBlock.tla does not see the deadlock of closing done under the write lock")
+    work = vf.scratch("verif-c16-")
+    out = os.path.join(work, "block.ndjson")
+    rc, txt = vf.go_test("pkg/websocket", ["hub_test.go"], run="TestVerifHubBlock$",
+                         env={"VERIF_OUT": out, "VERIF_ROUNDS": "40" if tier == "quick" else "400", "VERIF_SEED": str(seed)}, timeout=1500)
+    lines = vf.read_ndjson(out)
+    rounds = [ln for ln in lines if ln.get("ev") == "BlockRound"]
+    if not rounds:
+        raise vf.InfraError("C16 block driver failed rc=%s\n%s" % (rc, txt[-3000:]))
+    ck.cov["traces_validated_against_impl"] += len(rounds)
+    ck.cov["evaluations"] = ck.cov.get("evaluations", 0) + len(rounds)
+    for ln in rounds:
+        bad = None
+        if not ln["hub_returns"]:
+            bad = "hub-does-not-return"         # HubReturns
+        elif not ln["senders_return"]:
+            bad = "sender-stays-blocked"        # SendersReturn
+        elif ln["queued"] + ln["closed"] != ln["senders"] * ln["msgs"] or ln["queued"] > ln["qcap"]:
+            bad = "send-results"                # every Send answers once; without a pump at most QCap are queued
+        elif not ln.get("late_send_refused"):
+            bad = "send-after-close-accepted"   # NoSendOnClosed
+        elif not ln.get("hub_serves_afterwards"):
+            bad = "hub-stops-serving"
+        if bad:
+            ck.mismatch("block/" + bad, ln, replay={"kind": "ws-block", "round": ln})
+            break
+    ck.sample({"block_round": rounds[0]})
+
+
 def run(ck, tier, seed):
     quick = tier == "quick"
     ck.assumptions += [
+        "strategy block: WsBlock.tla models one connection's queue at the grain of sendMu/done (closeSend must close done before it asks for the write lock); the implementation is bound by scenario rounds (1-3 senders x 1-3 messages on a queue of 1-2 without a write pump, the connection unregistered after 0-3 ms) judged by the properties of that specification under a watchdog",
         "connections are real *websocket.Conn pairs over loopback, but the read/write pumps are not started: a disconnect is the `unregister` send the read pump performs, a consumer is the driver draining the queue",
         "trace validation follows registration, queue-open, closed flag, membership and views exactly and checks sends for safety only (queue contents are not ordered against drains)",
         "mutexes are assumed starvation-free (strong fairness for the hub's steps) in the liveness check",
@@ -182,4 +223,5 @@ def run(ck, tier, seed):
     # 3. free-running stress, trace validated
     record(ck, tier, seed)
     burst(ck, tier, seed)
+    block(ck, tier, seed)
     ck.cov["rule"] = "serial behaviours: transition cover (bounded history) and random walks of WsHub, replayed op by op on a real Hub; concurrent runs: hook traces validated by TLC"
